@@ -209,3 +209,88 @@ def c17(run):
     run.assumptions = ['packet bodies are lengths in the model; harness supplies valid bodies per tag',
                        'reader buffer size (8 KiB) is incidental: the model lets one fill deliver 100 or 8192 octets']
     run.notes['trusted_base'] = TRUSTED
+
+
+# ---------------------------------------------------------------------------
+# C03  ciphertext integrity
+
+def st(xs):
+    return '{' + ', '.join(str(x) for x in xs) + '}'
+
+
+def aead_cfg(c, t, nset, alldel, stride, hdrlen, bindidx=True, needfinal=True, invs=None):
+    invs = invs or 'NoCleanEOF RoundTrip ReleasedIsPrefix IdentityNeverErrs'
+    b = lambda x: 'TRUE' if x else 'FALSE'
+    return f"""CONSTANTS
+  C = {c}
+  T = {t}
+  NSet = {st(nset)}
+  AllDeletes = {b(alldel)}
+  FlipStride = {stride}
+  HdrLen = {hdrlen}
+  BindIdx = {b(bindidx)}
+  NeedFinal = {b(needfinal)}
+SPECIFICATION Spec
+INVARIANTS {invs}
+CHECK_DEADLOCK FALSE
+"""
+
+
+def cfb_cfg(p, m, b_, nset, modes, maxmsg, alldel, stride, mdc=True, invs=None, rel=(1, 2)):
+    invs = invs or 'NoCleanEOF RoundTrip CheckFirstReleasesNothingUnverified StreamingHoldsBack IdentityOk CheckFirstCap'
+    bb = lambda x: 'TRUE' if x else 'FALSE'
+    ms = '{' + ', '.join('"%s"' % x for x in modes) + '}'
+    return f"""CONSTANTS
+  P = {p}
+  M = {m}
+  B = {b_}
+  NSet = {st(nset)}
+  Modes = {ms}
+  MaxMsg = {maxmsg}
+  AllDeletes = {bb(alldel)}
+  FlipStride = {stride}
+  RelSizes = {st(rel)}
+  MdcChecked = {bb(mdc)}
+SPECIFICATION Spec
+INVARIANTS {invs}
+CHECK_DEADLOCK FALSE
+"""
+
+
+@prop('C03', 'model_checking')
+def c03(run):
+    both = ['checkfirst', 'streaming']
+    # exhaustive, scaled constants: every single manipulation of every stream of 0..3 chunks
+    run.mc('MCAeadStream', aead_cfg(3, 2, range(0, run.q(11, 14)), True, 1, 2), name='mc_aead')
+    run.mc('MCCfbMdc', cfb_cfg(3, 3, 8, range(0, run.q(13, 20)), both, 12, True, 1), name='mc_cfb')
+    # vacuity: each binding is the deciding one somewhere
+    run.mc('MCAeadStream', aead_cfg(3, 2, range(0, 8), True, 1, 0, bindidx=False), name='sens_no_index_in_nonce', expect_violation='ReleasedIsPrefix')
+    run.mc('MCAeadStream', aead_cfg(3, 2, range(0, 8), True, 1, 0, needfinal=False), name='sens_no_final_tag', expect_violation='NoCleanEOF')
+    run.mc('MCCfbMdc', cfb_cfg(3, 3, 8, range(0, 8), both, 12, True, 1, mdc=False), name='sens_no_mdc', expect_violation='NoCleanEOF')
+    # same modules at the real constants: model check + emit the cases that are replayed
+    inv = 'NoCleanEOF RoundTrip ReleasedIsPrefix IdentityNeverErrs GenCase'
+    nset2 = run.q([8, 63, 64, 65, 128, 129, 200], [8, 9, 63, 64, 65, 127, 128, 129, 191, 192, 193, 256, 300])
+    g2 = run.mc('MCAeadStream', aead_cfg(64, 16, nset2, False, run.q(3, 1), 36, invs=inv), name='real_aead', timeout=900)
+    inv1 = 'NoCleanEOF RoundTrip CheckFirstReleasesNothingUnverified StreamingHoldsBack IdentityOk GenCase'
+    nset1 = run.q([8, 40, 8151, 8152, 8153, 8192], [8, 9, 40, 200, 8149, 8150, 8151, 8152, 8153, 8154, 8192, 8193, 16342, 16343, 16344])
+    g1 = run.mc('MCCfbMdc', cfb_cfg(18, 22, 8192, nset1, both, 1073741824, False, run.q(997, 211), invs=inv1, rel=()), name='real_cfb', timeout=1500)
+    cases = [dict(c, layer='v2') for c in g2.cases] + [dict(c, layer='v1') for c in g1.cases]
+    if run.replay and run.replay.get('source_case'):
+        cases = [run.replay['source_case']]
+    for i, c in enumerate(cases):
+        c['ci'] = i
+    body, summary, oks = run.harness('c03', cases)
+    run.distinct_nontrivial = summary['extra']['nontrivial']
+    run.traces_validated = summary['evaluations']
+    run.exhaustive = True
+    run.rule = ('AeadStream and CfbMdc are model-checked exhaustively at scaled constants (every flip / delete range / insert / '
+                'duplicate / swap / header change) and again at the real constants (chunk 64, tag 16; prefix 18, MDC 22, buffer '
+                '8192) over boundary lengths, where TLC emits one case per (length, manipulation[, read mode]). Each case is applied '
+                'to a real container produced by the crate (position-exact), decrypted through Message and through '
+                'packet::StreamDecryptor with six consumer patterns (read_to_end, read 1/7/4096, fill_buf/consume all/1) until the '
+                'first error or end of stream. non-trivial = manipulated cases (distinct (length, manipulation) pairs)')
+    run.add_samples([c for c in cases if c['manip']['kind'] == 'swap'][:1] + [c for c in cases if c['layer'] == 'v1' and c['manip']['kind'] == 'delete'][:1])
+    run.add_samples(oks[:2])
+    run.assumptions = [SYMBOLIC, 'ideal AEAD / MDC: a chunk opens iff every octet is genuine for that index; the MDC matches iff the whole decrypted stream is genuine',
+                       'behaviour after the first error is not constrained']
+    run.notes['trusted_base'] = TRUSTED
